@@ -591,6 +591,14 @@ func dischargeIndex(fn *ssa.Function, at ssa.Instruction, base, idx ssa.Value) (
 			if isLenOf(bo.Y, base) || lenValueOf(bo.Y, base) {
 				return "index", "range index < len(" + describeVal(base) + ")", true, true
 			}
+			// range over a fixed-size array: the bound is the array length as a constant
+			if p, isP := bt.(*types.Pointer); isP {
+				if arr, isArr := p.Elem().Underlying().(*types.Array); isArr {
+					if k, isK := constInt(bo.Y); isK && k <= arr.Len() {
+						return "index", fmt.Sprintf("range index < %d ≤ array length", k), true, true
+					}
+				}
+			}
 		}
 		// i+1 < len … : `i < len(x)-1` bound then x[i+1]
 		if add, isAdd := idx.(*ssa.BinOp); isAdd && add.Op == token.ADD && bo.X == add.X {
